@@ -4,7 +4,7 @@
    gen_table_ok in the generated file), so that they apply to every generated type. *)
 From DV Require Import Base.Prelude Model.NameM Model.SchemaM Proofs.SchemaCodec Proofs.SchemaThm Proofs.SchemaFix Proofs.SchemaTable Proofs.SchemaOrigin.
 From DV Require Proofs.NameValid.
-From DV Require Import Model.DispatchM Proofs.SchemaDispatch.
+From DV Require Import Model.DispatchM Proofs.SchemaDispatch Model.SchemaHand Proofs.SchemaHandThm.
 Open Scope Z_scope.
 
 (* from_wire(to_wire(x)) = x for every well-formed schema and every value the constructor
@@ -125,6 +125,33 @@ Theorem dispatch_any_first_refuted :
 Proof. exact dispatch_any_first_refuted_thm. Qed.
 Print Assumptions dispatch_any_first_refuted.
 
+(* the irregular codecs that the translator cannot read (hand models, tied to the code by the
+   correspondence on every run): from_wire(to_wire(x)) = x anywhere in a message *)
+Theorem hip_roundtrip : forall vs b A P,
+  hand_encode_rdata HHip None vs = Ok b ->
+  hand_decode_rdata HHip None (A ++ b ++ P) (length A) (length b) = Ok vs.
+Proof. exact hip_roundtrip_thm. Qed.
+Print Assumptions hip_roundtrip.
+
+Theorem ipseckey_roundtrip : forall vs b A P,
+  hand_encode_rdata HIpseckey None vs = Ok b ->
+  hand_decode_rdata HIpseckey None (A ++ b ++ P) (length A) (length b) = Ok vs.
+Proof. exact ipseckey_roundtrip_thm. Qed.
+Print Assumptions ipseckey_roundtrip.
+
+Theorem amtrelay_roundtrip : forall vs b A P,
+  hand_encode_rdata HAmtrelay None vs = Ok b ->
+  hand_decode_rdata HAmtrelay None (A ++ b ++ P) (length A) (length b) = Ok vs.
+Proof. exact amtrelay_roundtrip_thm. Qed.
+Print Assumptions amtrelay_roundtrip.
+
+(* APL trims trailing zero octets of the address: values are compared in canonical form *)
+Theorem apl_roundtrip : forall vs b A P,
+  apl_canon vs -> hand_encode_rdata HApl None vs = Ok b ->
+  hand_decode_rdata HApl None (A ++ b ++ P) (length A) (length b) = Ok vs.
+Proof. exact apl_roundtrip_thm. Qed.
+Print Assumptions apl_roundtrip.
+
 (* ---------- non-vacuity: the hypotheses are satisfiable on realistic records ---------- *)
 Definition mx_schema := [FS (FU 2 65535); FS (FName true)].
 Definition mx_value := [VS (VI 10); VS (VN [[109; 97; 105; 108]; [101; 120]; []])].
@@ -192,3 +219,24 @@ Example dispatch_example :
   run_history mods [1; 15] [Query 4 15; LoadAll true; Query cCH 15; Query cCH 1; Query cANY 15; Query 4 1] init_state
   = [L [I 255; I 15]; L [I 255; I 15]; L [I 3; I 1]; L [I 255; I 15]; I 0].
 Proof. repeat split; reflexivity. Qed.
+
+(* hand codecs: the hypotheses hold on realistic records *)
+Example hip_example :
+  exists b, hand_encode_rdata HHip None
+              [VS (VB [1; 2; 3]); VS (VI 2); VS (VB [9; 9]); VL [[VN [[114; 118; 115]; []]]; [VN [[]]]]] = Ok b.
+Proof. eexists. vm_compute. reflexivity. Qed.
+Example ipseckey_example :
+  exists b, hand_encode_rdata HIpseckey None
+              [VS (VI 10); VS (VI 3); VS (VI 2); VS (VN [[103; 119]; []]); VS (VB [1; 2])] = Ok b.
+Proof. eexists. vm_compute. reflexivity. Qed.
+Example amtrelay_example :
+  exists b, hand_encode_rdata HAmtrelay None [VS (VI 10); VS (VI 1); VS (VI 1); VS (VB [192; 0; 2; 1])] = Ok b
+            /\ hand_decode_rdata HAmtrelay None b 0 (length b) = Ok [VS (VI 10); VS (VI 1); VS (VI 1); VS (VB [192; 0; 2; 1])].
+Proof. eexists. split; vm_compute; reflexivity. Qed.
+Example apl_example :
+  let v := [VL [[VI 1; VI 1; VB [0; 0; 0; 0]; VI 0]; [VI 2; VI 0; VB [32; 1; 0; 0; 0; 0; 0; 0; 0; 0; 0; 0; 0; 0; 0; 0]; VI 16]]] in
+  apl_canon v /\ exists b, hand_encode_rdata HApl None v = Ok b /\ hand_decode_rdata HApl None b 0 (length b) = Ok v.
+Proof.
+  split; [cbn; constructor; [left; reflexivity|constructor; [right; left; reflexivity|constructor]]|].
+  eexists. split; vm_compute; reflexivity.
+Qed.
